@@ -16,7 +16,7 @@ fuzz_target!(|data: &[u8]| {
     on_big_stack(|| {
         let mut t = Tape::new(&tape);
         let mut st = Stats::default();
-        let p = svgen::generate(&mut t, &svgen::Cfg::default());
+        let p = svgen::generate_mixed(&mut t, &svgen::Cfg::default());
         let mut f = Feats::default();
         let text = p.render(&mut t, &TriviaCfg::full(), &mut f);
         if let Err(fail) = c02::run_program(ctx, &p, &text, &mut st) {
